@@ -6,6 +6,7 @@ package main
 // read-only and bad requests).
 
 import (
+	"bytes"
 	"encoding/json"
 	"fmt"
 	"strings"
@@ -131,6 +132,9 @@ func buildPools(r rng, n int) *apiPools {
 		{"x9-cut-at-prefix", x[:4], true},
 		{"x9-huge-prefix", append([]byte{0x7f, 0xff, 0xff, 0xff}, x[4:60]...), true},
 		{"x9-ascii-as-ebcdic", p.x9A[0], true},
+		// rejections whose error message quotes bytes of the upload: not UTF-8, control characters
+		{"x9-binary-record-type", append([]byte{0, 0, 0, 80, 0xff, 0xfe}, bytes.Repeat([]byte{' '}, 78)...), true},
+		{"json-control-char-in-member", controlCharDoc(doc), true},
 	}
 	// the last control record dropped (cut exactly at a record boundary)
 	if off := lastRecordOffset(x); off > 0 {
@@ -199,6 +203,19 @@ func blankLengths(v any) {
 			blankLengths(c)
 		}
 	}
+}
+
+// controlCharDoc: a valid document whose file header carries a bell character in a validated member
+func controlCharDoc(doc []byte) []byte {
+	var m map[string]any
+	if json.Unmarshal(doc, &m) != nil {
+		return doc
+	}
+	if h, ok := m["fileHeader"].(map[string]any); ok {
+		h["immediateDestinationName"] = "Citadel\u0007\u00e9"
+	}
+	b, _ := json.Marshal(m)
+	return b
 }
 
 func lastRecordOffset(lp []byte) int {
